@@ -518,7 +518,7 @@ def shared_mapping(ctx):
     sub = Ctx("C06", ctx.tier, ctx.seed, ctx.repo)
     c06.run(sub)
     for o in sub.obligations:
-        if o.oid in ("C06.1", "C06.4", "C06.5"):
+        if o.oid in ("C06.1", "C06.4", "C06.5", "C06.6", "C06.7"):
             for i in o.instances[:150]:
                 ob.instance(o.oid + ": " + i["what"], i["detail"] or "ok")
             for r in o.refutations:
